@@ -1132,13 +1132,41 @@ func renameEnum(spec *SchemaSpec, from, to string) {
 // (F-20j) or almost. Returns what it did ("" = nothing). The outcome is decided by the oracles and, for
 // the three open findings, by their classifiers.
 func scopeEdge(r *hx.Rand, c *Case) string {
+	c.Docs = cloneCase(*c).Docs
 	var enums []int
 	for ti, t := range c.Schema.Types {
 		if t.Kind == "enum" {
 			enums = append(enums, ti)
 		}
 	}
-	switch r.Intn(3) {
+	switch r.Intn(4) {
+	case 3:
+		// a fragment named `_` (F-20l) or merely beginning with `_` (must pass)
+		to := hx.Pick(r, []string{"_", "_", "_x", "_9", "_F_", "x_"})
+		for di := range c.Docs {
+			for fi := range c.Docs[di].Defs {
+				d := &c.Docs[di].Defs[fi]
+				if d.Kind != "frag" || c.Docs[di].Frag(to) != nil {
+					continue
+				}
+				from := d.Name
+				d.Name = to
+				var walk func(ss []Sel)
+				walk = func(ss []Sel) {
+					for i := range ss {
+						if ss[i].Kind == "s" && ss[i].Name == from {
+							ss[i].Name = to
+						}
+						walk(ss[i].Sels)
+					}
+				}
+				for fj := range c.Docs[di].Defs {
+					walk(c.Docs[di].Defs[fj].Sels)
+				}
+				return "fragment-named-" + to
+			}
+		}
+		return ""
 	case 0:
 		if len(enums) == 0 {
 			return ""
